@@ -5,6 +5,10 @@ ROOT = os.path.dirname(os.path.dirname(os.path.abspath(__file__)))
 
 # id -> (level, technique, level text, level note, design ref)
 CLAIMED = {
+ "C01": ("exploration", "runtime monitoring: value-level and (value,r,d)-level reference-model oracle over PRNG-generated (type, rows, options, call history) cases on the real writer/readers",
+         "Held on every explored case: rows read back through Read[T], GenericReader.Read (PRNG batches, sync/async, with/without page index), Reader.Read and RowGroup.Rows are bit-identical to the rows written (documented nil/empty and zero-optional equivalences only) and the file's column streams equal the Dremel model's. The input space is a product of unbounded factors, so this is sampling with boundary-value pools: exploration.",
+         "Trusted: the library's Node API as the schema report, the Go reflect package. Symmetric writer/reader bugs are the business of C02's independent decoder.",
+         "DESIGN.md §4 C01"),
  "C20": ("exploration", "runtime monitoring: round-trip + independent-decoder oracle over PRNG call histories on shared codec values, under the Go race detector",
          "Held on every explored history: Decode(Encode(x))==x and an independent decompressor agrees, on shared and fresh codec values, after failed decodes, with every dst capacity class, single- and 16-goroutine use, race detector silent. Sampling of an unbounded history space, so exploration is the honest level.",
          "Trusted: stdlib gzip, klauspost zstd and andybalholm brotli called directly as independent decoders; hand-written snappy/LZ4 block decoders; Go race detector. Invalid input is never given to Lz4Raw.Decode (diverges; outside the statement).",
